@@ -367,7 +367,9 @@ func genScenario(t *rapid.T) *scenario {
 	// interleave: move nested structs to generated positions would change indices; keep order (top fields first)
 	sc.typ = reflect.StructOf(top)
 	sc.carrier = rapid.IntRange(0, 2).Draw(t, "carrier")
-	sc.tail = rapid.SampledFrom([][]string{nil, {"--"}, {"--", "-x", "rest"}, {"positional", "-f0=1"}, {"-"}}).Draw(t, "tail")
+	sc.tail = rapid.SampledFrom([][]string{nil, {"--"}, {"--", "-x", "rest"}, {"positional", "-f0=1"}, {"-"},
+		// positional arguments that look like values: they belong to the program, not to the flag in front of them
+		{"false"}, {"0", "1"}, {"f", "x"}, {"true"}, {"FALSE", "-f0=1"}, {"5s"}, {"42"}}).Draw(t, "tail")
 	return sc
 }
 
